@@ -60,6 +60,26 @@ pub fn profile(name: &str) -> Option<ConcProfile> {
     })
 }
 
+const RAW_PUBLISHER: &str = "rawpub";
+
+/// The k-th request of the raw publisher: one new object.
+fn raw_publish(rt: &KrillRuntime, jail: &str, k: usize) -> String {
+    use rpki::ca::publication::{Base64, Publish, PublishDelta, Query};
+    let uri = rpki::uri::Rsync::from_str(
+        &format!("{jail}{RAW_PUBLISHER}/obj{k}.cer")
+    ).unwrap();
+    let mut delta = PublishDelta::empty();
+    delta.add_publish(Publish::with_hash_tag(
+        uri, Base64::from_content(format!("raw object {k}").as_bytes())
+    ));
+    let handle = rpki::ca::idexchange::PublisherHandle::from_str(RAW_PUBLISHER)
+        .unwrap();
+    match rt.repo_manager().rfc8181_message(&handle, Query::Delta(delta), rt) {
+        Ok(_) => "ok".to_string(),
+        Err(err) => format!("err:{err}"),
+    }
+}
+
 fn label(res: &Result<(), String>) -> String {
     match res {
         Ok(()) => "ok".to_string(),
@@ -212,6 +232,23 @@ fn build(seed: u64, profile: &ConcProfile, base: &std::path::Path) -> Result<Bui
     runner.exec(&Op::Pump);
     if runner.dead.is_some() {
         return Err(format!("prefix died: {:?}", runner.dead))
+    }
+    // A remote publisher without a CA behind it: its requests arrive on
+    // an HTTP worker thread, concurrently with the scheduler.
+    if profile.with_scheduler {
+        let inst = runner.world.inst(0);
+        inst.enter();
+        let rt = inst.rt();
+        let cert = rt.signer().create_self_signed_id_cert()
+            .map_err(|e| e.to_string())?;
+        let req = rpki::ca::idexchange::PublisherRequest::new(
+            rpki::ca::publication::Base64::from_content(&cert.to_bytes()),
+            rpki::ca::idexchange::PublisherHandle::from_str(RAW_PUBLISHER)
+                .unwrap(),
+            None
+        );
+        rt.repo_manager().create_publisher(req, &ADMIN)
+            .map_err(|e| e.to_string())?;
     }
     // The concurrent operations, generated against the reached state.
     let mut op_rng = root.fork("conc");
@@ -430,8 +467,49 @@ pub fn run(seed: u64, profile: &ConcProfile, replay: Option<Vec<u16>>) -> RunRep
             }),
         });
     }
+    let raw_results: Arc<Mutex<Vec<String>>> = Default::default();
+    let n_raw = 3usize;
+    let publisher_done = Arc::new(AtomicUsize::new(
+        if profile.with_scheduler { 0 } else { 1 }
+    ));
+    if profile.with_scheduler {
+        let (rt, raw_results) = (rt.clone(), raw_results.clone());
+        let jail = runner.world.inst(0).cfg.rsync_jail();
+        let api_done2 = api_done.clone();
+        let publisher_done2 = publisher_done.clone();
+        let late_pause = Rng::new(seed).fork("late").below(40);
+        specs.push(ThreadSpec {
+            name: "publisher".into(),
+            slow: false,
+            body: Box::new(move || {
+                for k in 0..n_raw {
+                    if k + 1 == n_raw {
+                        // The last request comes late, when the CAs have
+                        // nothing left to publish: nobody else will cause
+                        // an RRDP update after it.
+                        let mut spins = 0;
+                        while api_done2.load(Ordering::SeqCst) < n_api
+                            && spins < 5000
+                        {
+                            spins += 1;
+                            sched::switch_point("publisher_wait");
+                        }
+                        for _ in 0..late_pause {
+                            sched::switch_point("publisher_wait");
+                        }
+                    }
+                    hooks::log(format!("raw publish {k}"));
+                    let res = raw_publish(&rt, &jail, k);
+                    raw_results.lock().unwrap().push(res);
+                    sched::switch_point("publisher_pause");
+                }
+                publisher_done2.store(1, Ordering::SeqCst);
+            }),
+        });
+    }
     if profile.with_scheduler {
         let (rt, api_done) = (rt.clone(), api_done.clone());
+        let publisher_done = publisher_done.clone();
         specs.push(ThreadSpec {
             name: "scheduler".into(),
             slow: true,
@@ -444,7 +522,9 @@ pub fn run(seed: u64, profile: &ConcProfile, replay: Option<Vec<u16>>) -> RunRep
                     }
                     else {
                         idle += 1;
-                        if api_done.load(Ordering::SeqCst) >= n_api {
+                        if api_done.load(Ordering::SeqCst) >= n_api
+                            && publisher_done.load(Ordering::SeqCst) > 0
+                        {
                             break
                         }
                         if idle > 2000 {
@@ -715,6 +795,42 @@ pub fn run(seed: u64, profile: &ConcProfile, replay: Option<Vec<u16>>) -> RunRep
             "distinct_versions_read".into(), per_version.len() as u64
         );
         // Quiescence and the observable state.
+        // Background work catches up; then what is served must be what
+        // the publication server holds (before anything is re-submitted).
+        let _ = runner.exec_pump();
+        if runner.dead.is_none() && profile.with_scheduler {
+            for res in raw_results.lock().unwrap().iter() {
+                if res != "ok" {
+                    violations.push(Violation {
+                        prop: "C18".into(), rule: "publication_refused".into(),
+                        detail: format!(
+                            "a valid publication request of the remote \
+                             publisher was answered with {res}"
+                        ),
+                        step: 0,
+                    });
+                }
+            }
+            let all: BTreeSet<String> = runner.model.cas.values()
+                .map(|c| c.name.clone()).collect();
+            for (rule, detail) in crate::c09::followups_done(
+                &runner, &all, &BTreeMap::new()
+            ) {
+                if rule == "rrdp_update_not_done"
+                    || rule == "rsync_update_not_done"
+                    || rule == "rrdp_files_broken"
+                {
+                    violations.push(Violation {
+                        prop: "C09".into(), rule,
+                        detail: format!(
+                            "after the concurrent phase and a full pump: \
+                             {detail}"
+                        ),
+                        step: 0,
+                    });
+                }
+            }
+        }
         settle(&mut runner);
         if let Some(dead) = &runner.dead {
             violations.push(Violation {
@@ -728,7 +844,9 @@ pub fn run(seed: u64, profile: &ConcProfile, replay: Option<Vec<u16>>) -> RunRep
             if let Some(issues) = norm.get("rp_issues").and_then(|i| i.as_array()) {
                 for issue in issues {
                     let text = issue.as_str().unwrap_or("");
-                    if !text.contains("expired") && !text.contains("stale") {
+                    if !text.contains("expired") && !text.contains("stale")
+                        && !text.contains(&format!("/{RAW_PUBLISHER}/"))
+                    {
                         violations.push(Violation {
                             prop: "C18".into(), rule: "tree_invalid".into(),
                             detail: format!(
@@ -1083,6 +1201,14 @@ fn run_witness(
         results.insert((*t, *i), format!("{res}{flag}"));
     }
     let audit = audit_records(&rb, &before_b);
+    if profile.with_scheduler {
+        let rt = rb.world.inst(0).rt().clone();
+        let jail = rb.world.inst(0).cfg.rsync_jail();
+        for k in 0..3 {
+            let _ = raw_publish(&rt, &jail, k);
+        }
+    }
+    let _ = rb.exec_pump();
     settle(&mut rb);
     let norm = if rb.dead.is_none() {
         Some(strip_packaging(crate::cuts::norm_state(&rb)))
